@@ -6,6 +6,7 @@ ENGINES = [{
 }]
 NOTES = "See DESIGN.md. Every check rebuilds its Lean target (lake build), audits #print axioms of its theorems, then runs the correspondence against /repo's working tree."
 _PENDING = "check not built yet in this round (planned, see DESIGN.md §7); no claim is made until its Lean model, theorems and correspondence exist"
+RUNNOTE = 'Theorems are about lean/CobyqaVerif/Model/Run.lean (skeleton of minimize / sampling loop / _eval / Problem.__call__ / _build_result, nondeterministic in everything numeric). The tie to /repo is trace validation: every recorded real run must be accepted by the skeleton (events from monkey-patched methods and user-function spies; no source hooks). Trusted: Lean kernel + 3 standard axioms, recorder and generators, binary64 order = integer key order, Lean Float = numpy float64 for the merit value.'
 CHECKS = [
     {"id": "C03", "level": "proof",
      "text": "Lean theorems over all histories of (objective, violation) pairs, NaN included, any length, any filter size: coverage of evaluated points by the filter, feasible-first selection, merit minimality, non-domination, NaN never preferred. The model mirrors Problem.__call__'s filter block and best_eval statement by statement and is compared with the real Problem after every insertion; the post-condition is evaluated in Lean on the implementation's answers.",
